@@ -631,6 +631,14 @@ theorem detach_good (s : Server) (i : Nat) (withErr : Bool) : Good s (detach s i
   exact hs1.trans (detachB_good s1 i)
 
 
+/-- case split on an `if` producing a handler result, without `split` (whose `simp` pass runs out of steps on the
+whole `processPublish` body) -/
+theorem Good.ite_res {s : Server} {p : Prop} [Decidable p] {a b : HRes}
+    (ha : p → Good s a.1) (hb : ¬ p → Good s b.1) : Good s (if p then a else b).1 := by
+  by_cases h : p
+  · rw [if_pos h]; exact ha h
+  · rw [if_neg h]; exact hb h
+
 theorem processPublish_good (s : Server) (i : Nat) (qos : Nat) (dup retain : Bool) (id : Nat) (topic payload : Str)
     (msgExpiry : Nat) (alias : Option Nat) :
     Good s (processPublish s i qos dup retain id topic payload msgExpiry alias).1 := by
@@ -653,16 +661,14 @@ theorem processPublish_good (s : Server) (i : Nat) (qos : Nat) (dup retain : Boo
         rw [heq] at this
         exact this
       · rw [ackRes_fst]; exact Good.refl s
-  split
-  · exact early _
-  · split
+  refine Good.ite_res (fun _ => early _) (fun _ => ?_)
+  · refine Good.ite_res (fun _ => ?_) (fun _ => ?_)
     · split
       rename_i s' o heq
       have := disconnectClient_good s i 0x93
       rw [heq] at this
       exact this
-    · split
-      · exact early _
+    · refine Good.ite_res (fun _ => early _) (fun _ => ?_)
       · extract_lets +onlyGivenNames e pk pre
         have hpre : ∀ r, pre = some r → r.1 = s := by
           intro r h
@@ -706,8 +712,15 @@ theorem processPublish_good (s : Server) (i : Nat) (qos : Nat) (dup retain : Boo
               · cases heq; exact CW.refl _
             · cases heq; exact CW.refl _
           clear heq
-          extract_lets +onlyGivenNames s2 pk3 mode
+          extract_lets +onlyGivenNames s2
           have hs2 : Good s s2 := hs1.set i c2 (ho1.trans hc2)
+          split
+          · split
+            rename_i s' o heq
+            have := disconnectClient_good s2 i 0x82
+            rw [heq] at this
+            exact hs2.trans this
+          extract_lets +onlyGivenNames pk3 mode
           split
           · exact hs2
           · split
